@@ -16,6 +16,16 @@ CLAIMED = {
  "C04": ("exploration", "Engine H", "seeded history simulation with rejected operations; refinement against a (node set, layer) reference model; aggregation and overlap checked as derivations inside histories",
          "Same machinery on MultiplexHypergraph with the operation list of its quantifier; weighted batches placing one node set in two layers are valid operations; aggregated_hypergraph() (full observation) and edge_overlap of every node set in use and one absent are derivation steps; the source, including its hypergraph metadata, is re-observed afterwards.  Sampling, not proof.",
          "Metadata of the aggregated hypergraph is not asserted; layers in use checked as: superset of layers with a record, subset of layers ever inserted."),
+
+ "C05": ("exploration", "Engine H", "seeded history simulation (drive-only) with extraction steps and copy() forks; expected extraction recomputed from the source's own public observation; non-interference between live objects after every operation",
+         "Partly claimed.  Histories drive Hypergraph / DirectedHypergraph objects into states only histories reach (id holes, stale tables); at extraction steps subhypergraph(nodes), subhypergraph_by_orders, get_edges(subhypergraph=True,...) and subhypergraph_largest_component are compared by full public observation (weights, node and hyperedge metadata, node set, weightedness) with the selection recomputed from the source's observation; the source is re-observed; copy() is a fork: equal at fork time and, for the rest of the history, an operation on one object never changes the observation of another.",
+         "Selections are sampled per step, not enumerated (the 'every node subset / every list' quantifier is not covered); largest component only without order/size filter; hypergraph-level metadata of extractions not asserted."),
+ "C07": ("exploration", "Engine H", "seeded history simulation (drive-only): batch-wide content-digest <-> hash bijection over every state reached, rebuilt twins, single-element edits, two interpreters with different PYTHONHASHSEED",
+         "After every operation of every history (all four containers, detour-heavy op mix) each live object's (content digest, hash) pair enters batch-wide tables that must be functions in both directions, so any two histories meeting in one content are compared; sampled states are rebuilt in sorted and shuffled insertion order (hash equal) and receive every applicable single-element edit (hash different); the observation must be identical before and after hashing; 24/200 seeds are re-run in two fresh interpreters with PYTHONHASHSEED 0 and 12345 and must log identical hashes.",
+         "Content = what the public API reports; tables are merged per round of 2400 runs; labels comparable, metadata JSON-native with string keys."),
+ "C19": ("exploration", "Engine H + Engine R", "seeded history simulation with filter_hypergraph as a mutating operation checked against a reference model (C19a); get_svh under a scheduled in-process worker pool with permuted execution order, compared with the binomial definition and mp=False (C19b)",
+         "Partly claimed.  C19a: filter_hypergraph is one more operation in refinement histories of all four containers (criteria over the metadata in use, missing attributes, empty criteria, both modes, keep_edges) and the history continues afterwards.  C19b: see DESIGN 7/C19.",
+         "The exact FDR constant is not asserted; keep_edges=True corner cases under the ambiguity guard."),
 }
 NA = {
  "C08": "pure function of the hypergraph value (degrees, components): no history, I/O, random draw, clock or interleaving for a simulator to own (DESIGN.md 8)",
